@@ -151,6 +151,46 @@ def _weight(spec):
     return n
 
 
+def case_rejoin(case):
+    """A root that already belongs to a tensor is copied / given to another tensor.
+    The source tensor's leaf default (7) differs from the default its fibers were
+    built with (0), and some sub-fibers hold only zeros: whether such a fiber
+    counts as empty depends on who owns it."""
+    spec, how = case
+    out = []
+    feats = tree_features(spec, 2) | {"how:" + how, "rank_default_differs_from_fiber_default"}
+    try:
+        src = Tensor.fromFiber(["A", "B"], mktree(spec, 2, tag=1, default=0), shape=[2, 2], default=7)
+        m0 = mirror(src)
+        if m0:
+            return [("rejoin:" + how, "source-mirror-before:" + m0, feats, None, rank_index_view(src))]
+        if how == "copy-noowner":
+            c = src.getRoot().copy(preserve_owner=False)
+            dst = None
+        elif how == "fromFiber":
+            dst = Tensor.fromFiber(["M", "N"], src.getRoot(), default=7)
+        else:
+            dst = Tensor(rank_ids=["M", "N"], default=7)
+            dst.setRoot(src.getRoot())
+        m = mirror(src)
+        if m:
+            out.append(("rejoin:" + how, "source-mirror:" + m, feats, None, rank_index_view(src)))
+        if dst is not None:
+            m = mirror(dst)
+            if m:
+                out.append(("rejoin:" + how, "mirror:" + m, feats, None, rank_index_view(dst)))
+        core.CUR.nt("rejoin")
+    except Exception as ex:
+        out.append(("rejoin:" + how, "exception:" + type(ex).__name__, feats | {"site:" + core.exc_site(ex)},
+                    None, core.tb_tail(ex)))
+    return out
+
+
+def shard_rejoin(acc, shard, nshards, params):
+    core.drive(acc, "rejoin", case_rejoin, ((s, h) for s in t2(2, 2) for h in ("copy-noowner", "fromFiber", "setRoot")),
+               shard, nshards, family="rejoin[T2(2,2), leaf default 7 over fibers built with default 0]")
+
+
 def case_other_ctor(case):
     kind = case[0]
     out = []
@@ -402,7 +442,7 @@ def key(S):
     return (rawfull(S.T.getRoot()), rank_index_view(S.T))
 
 
-CASES = {"history": bfs.replay_case, "ctor": case_ctor, "other_ctor": case_other_ctor}
+CASES = {"history": bfs.replay_case, "ctor": case_ctor, "other_ctor": case_other_ctor, "rejoin": case_rejoin}
 
 
 def run(ctx):
@@ -413,6 +453,7 @@ def run(ctx):
         ctx.shards(shard_ctor, (2, None))
         ctx.shards(shard_ctor, (3, 2 if q else 3))
         ctx.shards(shard_other_ctor, None, nshards=16)
+        ctx.shards(shard_rejoin, None, nshards=16)
     fams = [
         ("bfs-2x2", [(2, (2, 2), None), (2, (2, 2), (('0', '1'), None)), (2, (2, 2), (('-', '-'), ('1', '0')))],
          3 if q else None, 60 if q else 900),
